@@ -609,6 +609,10 @@ func VerifyLinkSignatureThesholds(layout Layout,
 					continue
 				}
 
+				// The functionary is identified by the key of the verified
+				// certificate, not by the key id the link claims, so that
+				// one certificate holder is counted only once
+				signerKeyID = cert.KeyID
 				linksPerStepVerified[signerKeyID] = linkEnv
 			}
 		}
